@@ -14,7 +14,7 @@ pub fn def() -> PropDef {
         streams,
         run,
         floors,
-        rule: "inputs: every octet string of length <= 2; every flag word over a consistent body; every attribute 0..41,65535 x payload length 0..40 x H x vendor; every truncation point and single-bit flip of a corpus covering all AVP kinds and all 16 data-header shapes; boundary-mutated reference encodings, splices and random octets. Each input is decoded under all 8 option sets, try_read and try_read_greedy, through SliceReader and a step-budgeted contract reader. Distinct = distinct input octet strings; non-trivial = at least 6 octets (reaches past the flag word into a header).",
+        rule: "inputs: every octet string of length <= 2; every flag word over a consistent body; every attribute 0..41,65535 x payload length 0..40 x H x vendor; every truncation point and single-bit flip of a corpus covering all AVP kinds and all 16 data-header shapes; boundary-mutated reference encodings, splices and random octets. Each input is decoded under all 8 option sets, try_read and try_read_greedy, through SliceReader and a step-budgeted contract reader. Distinct = distinct input octet strings; non-trivial = at least 6 octets (reaches past the flag word into a header). Also: inputs at the top of the 16-bit size fields with the announced octets present (offset sizes near 65535 with the pad, AVP lists beyond 64 KiB, ~10^4 minimal records), and a soak of 2^32 octets decoded on one thread. Before one case in sixteen a few calls that are expected to fail are executed and ignored (fault provocation).",
     }
 }
 
